@@ -77,6 +77,51 @@ def folded(P, f, b, i, namevar, depth=3, seen=None):
     return False, w
 
 
+def stack_key_folded(P, f, b, i, namevar):
+    """Key of the named-stack list: folded in the function itself, or every source the key is filled from is in
+    canonical case (an upper-case literal; a parameter every caller has passed through NLS_UpString)."""
+    edge, elem = fold_preds(namevar)
+    ok, w = f.guarded(b, i, edge, elem)
+    if ok:
+        return True, []
+    srcs = [(b2, i2, ln, n) for b2, i2, ln, n in f.calls({'strmaxcpy', 'strcpy', 'ExpandStrSymbol'}) if n[2] and nocast(n[2][0]) == namevar]
+    if not srcs:
+        return False, w
+    names = [p['name'] for p in f.params]
+    for b2, i2, ln, n in srcs:
+        src = nocast(n[2][-1]) if callee_name(n) == 'ExpandStrSymbol' else nocast(n[2][1])
+        if src[0] == 's':
+            if src[1] != src[1].upper():
+                return False, ['literal %r copied at %s' % (src[1], f.loc(ln))]
+            continue
+        if src[0] != 'p' or src[1] not in names:
+            return False, w + ['source %s at %s' % (show(src), f.loc(ln))]
+        pi = names.index(src[1])
+        sites = call_sites(P, f)
+        if not sites:
+            return False, w
+        for (g, b3, i3, l3, n3, d3) in sites:
+            def base_of(e):
+                e = nocast(e)
+                if e[0] == 'u' and e[1] == '&':
+                    e = nocast(e[2])
+                while e[0] == 'm':
+                    e = nocast(e[1])
+                return repr(e)
+            a3 = base_of(n3[2][pi]) if pi < len(n3[2]) else None
+
+            def elem3(ex, a3=a3):
+                for m in walk_own(ex):
+                    if m[0] == 'call' and callee_name(m) in ('NLS_UpString', 'UpString') and m[2]:
+                        if a3 is not None and base_of(m[2][0]) == a3:
+                            return True
+                return False
+            ok3, w3 = g.guarded(b3, i3, edge, elem3)
+            if not ok3:
+                return False, w + ['<-called from %s:%d' % (g.qname, l3)] + w3
+    return True, []
+
+
 def rule_r1(chk, facts, P):
     chk.rule('C13-R1', 'before every keyed search or insert in the symbol, macro and structure trees and in the '
              'FORWARD/PUBLIC/GLOBAL lists, the name has passed NLS_UpString() on every path on which CaseSensitive is '
@@ -93,6 +138,9 @@ def rule_r1(chk, facts, P):
                 namevar, what = nocast(n[2][1]), 'tree search'
             elif cn == 'FindNode_FSpec' and n[2]:
                 namevar, what = nocast(n[2][0]), 'FORWARD/PUBLIC list search'
+            elif cn == 'strcmp' and len(n[2]) == 2 and nocast(n[2][0])[0] == 'm' and nocast(n[2][0])[2].endswith('sSymbolStack.Name'):
+                # the sorted list of named PUSHV/POPV stacks: strcmp(LStack->Name, key)
+                namevar, what = nocast(n[2][1]), 'named-stack search'
             elif cn == 'EnterTree' and len(n[2]) >= 2:
                 # &Neu->Tree  ->  the key is Neu->Tree.Name
                 a = strip(n[2][1])
@@ -160,6 +208,8 @@ def rule_r1(chk, facts, P):
                         ok2, w2 = g.guarded(b2, i2, fold_preds(namevar)[0], elem2)
                         if not ok2:
                             ok, w = False, ['<-called from %s:%d' % (g.qname, l2)] + w2
+            elif what == 'named-stack search':
+                ok, w = stack_key_folded(P, f, b, i, namevar)
             else:
                 ok, w = folded(P, f, b, i, namevar)
             chk.ob('C13-R1', '%s:%s:%s(%s)' % (f.unit.name, f.name, cn, show(namevar)[:30]), ok, f.loc(ln),
@@ -522,5 +572,7 @@ def run(chk, facts, info):
     rule_r6(chk, facts, P)
     rule_r7(chk, facts, P)
     rule_r8(chk, facts, P)
+    from . import c13_pred
+    c13_pred.run(chk, facts, P)
     chk.note('Decided: case folding before keyed lookups/inserts, local-before-global lookup order, redefinition guards, '
              'balance of global-scope escapes. Not decided: section-tree resolution results, temporary-symbol binding.')
